@@ -2337,3 +2337,5 @@ V("C07", "unwatch_drops_the_queued_delivery", "fire", "R07.j", (Z, "            
 V("C07", "dependencies_deduplicated_by_parameter_object", "fire", "R07.m", (Z, "                dependencies += _params_depended_on(subdep, intermediate=intermediate)[0]\n    return dependencies", "                dependencies += _params_depended_on(subdep, intermediate=intermediate)[0]\n    unique = {}\n    for dep in dependencies:\n        unique.setdefault((dep.pobj, dep.what), dep)\n    return list(unique.values())"))
 V("C06", "dependencies_deduplicated_by_parameter_object", "fire", "R06.m", (Z, "                dependencies += _params_depended_on(subdep, intermediate=intermediate)[0]\n    return dependencies", "                dependencies += _params_depended_on(subdep, intermediate=intermediate)[0]\n    unique = {}\n    for dep in dependencies:\n        unique.setdefault((dep.pobj, dep.what), dep)\n    return list(unique.values())"))
 V("C07", "benign_dependencies_returned_as_a_copy", "benign", None, (Z, "                dependencies += _params_depended_on(subdep, intermediate=intermediate)[0]\n    return dependencies", "                dependencies += _params_depended_on(subdep, intermediate=intermediate)[0]\n    return list(dependencies)"))
+V("C20", "finite_floats_printed_with_fifteen_digits", "fire", "R20.b", (Z, "    rep = repr(value)\n    if rep in ('inf', '-inf', 'nan'):", "    rep = repr(value)\n    if rep not in ('inf', '-inf', 'nan') and len(rep) > 17:\n        rep = '%.15g' % value\n    if rep in ('inf', '-inf', 'nan'):"))
+V("C20", "benign_finite_floats_printed_with_seventeen_digits_when_needed", "benign", None, (Z, "    rep = repr(value)\n    if rep in ('inf', '-inf', 'nan'):", "    rep = repr(value)\n    text = str(value)\n    if rep in ('inf', '-inf', 'nan'):"))
